@@ -256,7 +256,8 @@ class Models:
         site = SITE(fr.key, fr.bb)
         rargs = [I.resolve(st, a) for a in cargs]
         rc = I.resolve(st, callee)
-        cbev = {'k': 'usercb', 'callee': rc, 'args': rargs, 'raw_args': list(cargs)}
+        cbev = {'k': 'usercb', 'callee': rc, 'args': rargs, 'raw_args': list(cargs),
+                'dest_ty': I.T[t['dest_ty']]['s'] if cont[0] == 'mir' else ''}
         I.emit(st, fr, cbev)
         for i, a in enumerate(cargs):
             if a is None or not is_ptr(a):
@@ -584,6 +585,15 @@ class Models:
             new = SYM('app', 'path.pop', SITE('', 0), old if old is not None else SYM('undef', 'pop'))
         I.store(st, addr, new)
         return self.finish(I, st, fr, t, cont, SYM('app', np, SITE(fr.key, fr.bb)))
+
+    def m_path_parent(self, I, st, fr, t, c, np, args, cont):
+        """std::path::Path::parent"""
+        _, v = self._pointee(I, st, args[0])
+        v = I.resolve(st, v)
+        if v is not None and VAL[v][0] == 'sym' and VAL[v][1] == 'app' and VAL[v][2] == 'path.push':
+            # a path that was just pushed onto always has a parent
+            return self.finish(I, st, fr, t, cont, SOME(SYM('app', 'std::path::Path::parent', SITE('', 0), v)))
+        return self.generic(I, st, fr, t, np, args, cont, c)
 
     def m_localkey_with(self, I, st, fr, t, c, np, args, cont):
         """std::thread::LocalKey::with"""
